@@ -8,7 +8,8 @@ sys.path.insert(0, os.path.dirname(os.path.dirname(os.path.abspath(__file__))))
 from genlib import *
 
 LEAN_MODULES = ["MpirProofs.Props.C01_mulmid"]
-THEOREMS = ["Mpir.MulMid.mulmid_basecase_spec", "Mpir.MulMid.mulmid_n_spec", "Mpir.MulMid.mulmid_spec", "Mpir.MulMid.tmSpec_ok"]
+THEOREMS = ["Mpir.MulMid.mulmid_basecase_spec", "Mpir.MulMid.mulmid_n_spec", "Mpir.MulMid.mulmid_spec", "Mpir.MulMid.tmSpec_ok",
+            "Mpir.MulMid.mp_pairs_spec", "Mpir.MulMid.mulmid_pairs_spec"]
 PINS = [("mpn/generic/mulmid_basecase.c", "mpn_mulmid_basecase"), ("mpn/generic/mulmid_n.c", "mpn_mulmid_n"),
         ("mpn/generic/mulmid.c", None), ("gmp-impl.h", "ADDC_LIMB")]
 TRUSTED = ["hand-written limb-level models of mpn_mulmid_basecase / mpn_mulmid_n / mpn_mulmid in lean/Mpir/Model/MulMid.lean (run against the "
